@@ -211,6 +211,7 @@ func TestVerifC16(t *testing.T) {
 		g := world.Generate(r, worldHosts(s, r.Intn), world.DefaultOpts(r))
 		_, feedNames := setFeeds(g, r)
 		s.SetHandler(wk.Handler(g.World))
+		s.ResetLog() // the byte log is only needed per world; keeping it would grow without bound
 		if !c.Begin(cn, "ui session with changing heights") {
 			continue
 		}
